@@ -293,13 +293,19 @@ def gen_safe_name(rng, tier):
         for combo in itertools.product(TOKENS, repeat=4):
             yield {"case": "snakeCase", "prefix": "value", "s": "".join(combo)}
     # user prefixes, including ones that make the real function recurse forever
+    # (a diverging call costs a thousand frames: the quick tier keeps those few)
+    bad = [p for p in PREFIXES[4:] if not prefix_ok(p)]
+    good = [p for p in PREFIXES[4:] if prefix_ok(p)]
     for s in HAND_NAMES[:120]:
-        for p in PREFIXES[4:]:
+        for p in good:
+            yield {"case": rng.choice(CASES), "prefix": p, "s": s}
+    for s in (HAND_NAMES[:120] if tier != "quick" else rng.sample(HAND_NAMES[:120], 12)):
+        for p in bad:
             yield {"case": rng.choice(CASES), "prefix": p, "s": s}
     alpha = TOKENS + MORE
     for _ in range(1500 if tier == "quick" else 40000):
         s = "".join(rng.choice(alpha) for _ in range(rng.choice([1, 2, 3, 4, 6])))
-        yield {"case": rng.choice(CASES), "prefix": rng.choice(PREFIXES), "s": s}
+        yield {"case": rng.choice(CASES), "prefix": rng.choice(PREFIXES[:4] + good if tier == "quick" and rng.random() < 0.9 else PREFIXES), "s": s}
 
 
 def gen_filter(rng, tier):
@@ -1868,7 +1874,7 @@ def gen_pipeline(rng, tier):
     # choices with equal types (DetectCircularReferences, CreateCompoundFields, DisambiguateChoices,
     # UnnestInnerClasses, VacuumInnerClasses, class order and imports inside / across modules)
     tnames_pool = ["A", "b", "a_b", "class", "None", "T1", "x-y", "a", "Inner", "value", "é", "Node", "node", "a.b"]
-    for _ in range(120 if tier == "quick" else 2500):
+    for _ in range(90 if tier == "quick" else 2000):
         names = rng.sample(tnames_pool, rng.randint(2, 5))
         enames = rng.sample(XML_NAMES[:40], 6)
         types = []
@@ -1909,7 +1915,7 @@ def gen_pipeline(rng, tier):
             if rng.random() < pr:
                 opts[k2] = True
         yield xsd(types, [{"name": rng.choice(enames), "type": rng.choice(names)}], [], rng.choice([None, None, "urn:x"]), **opts)
-    for _ in range(40 if tier == "quick" else 600):
+    for _ in range(40 if tier == "quick" else 400):
         pool = rng.sample(XML_NAMES, 8)
         pool = [x for x in pool if x != "\u2fe0"] or ["a"]
         bnames = list(dict.fromkeys(rng.choice(pool) for _ in range(rng.randint(1, 3))))
@@ -1926,7 +1932,7 @@ def gen_pipeline(rng, tier):
         opts = {"style": rng.choice(STYLES), "relative_imports": rng.random() < 0.6, "unnest": rng.random() < 0.3,
                 "slots": rng.random() < 0.3, "generic_collections": rng.random() < 0.3}
         yield {"kind": "xsd2", "spec": spec, "opts": opts}
-    n = 300 if tier == "quick" else 4000
+    n = 200 if tier == "quick" else 2500
     tnss = [None, None, "urn:x", "http://www.example.com/class/1", "http://1.2/3", "urn:await"]
     for _ in range(n):
         opts = {
@@ -1998,7 +2004,7 @@ _E2E_CACHE = {}
 def _e2e_msg(a):
     k = json.dumps(a, sort_keys=True, ensure_ascii=False)
     if k not in _E2E_CACHE:
-        if len(_E2E_CACHE) > 5000:
+        if len(_E2E_CACHE) > 20000:
             _E2E_CACHE.clear()
         _E2E_CACHE[k] = oracle_pipeline(a)
     return _E2E_CACHE[k]
